@@ -14,19 +14,22 @@ Definition hf : handler_facts := handler_code.
 
 (* ================================================================== 1. size-query helpers *)
 
-(* the code `if ( *size CMP len + a) throw; ... else *size = len + b` asks for exactly
-   len + extra elements in both places, and copies only after the test *)
+(* the code `if (buf) { if ( *size CMP len + a) throw; copy } else *size = len + b` asks for
+   exactly len + extra elements in both places, copies only after the test, and takes the
+   copy branch for EVERY non-NULL buffer (hc_guard_plain; [run_helper] is the semantics of
+   exactly that shape, so the flag is what licenses it) *)
 Definition hc_equiv (hc : helper_code) (extra : nat) : bool :=
   match hc_cmp hc with
   | CLt => Nat.eqb (hc_cmp_plus hc) extra
   | CLe => Nat.eqb (S (hc_cmp_plus hc)) extra
   | _ => false
-  end && Nat.eqb (hc_query_plus hc) extra && hc_copy_after_test hc.
+  end && Nat.eqb (hc_query_plus hc) extra && hc_copy_after_test hc && hc_guard_plain hc.
 
 Lemma hc_equiv_cmp hc extra size len : hc_equiv hc extra = true ->
   cmp_holds (hc_cmp hc) size (len + N.of_nat (hc_cmp_plus hc)) = (size <? len + N.of_nat extra)%N.
 Proof.
   unfold hc_equiv. intros H.
+  apply andb_true_iff in H. destruct H as [H _].
   apply andb_true_iff in H. destruct H as [H _].
   apply andb_true_iff in H. destruct H as [H _].
   destruct (hc_cmp hc); try discriminate; apply Nat.eqb_eq in H; subst extra; cbn [cmp_holds].
@@ -38,6 +41,7 @@ Qed.
 Lemma hc_equiv_query hc extra : hc_equiv hc extra = true -> hc_query_plus hc = extra.
 Proof.
   unfold hc_equiv. intros H.
+  apply andb_true_iff in H. destruct H as [H _].
   apply andb_true_iff in H. destruct H as [H _].
   apply andb_true_iff in H. destruct H as [_ H]. now apply Nat.eqb_eq in H.
 Qed.
